@@ -469,25 +469,27 @@ func c04Concat(c *Ctx, m *runnerModel) {
 	}
 	c.fn(vt)
 	okText := false
-	walkNoLit(vt.Body, func(n ast.Node) bool {
-		cc, ok := n.(*ast.CaseClause)
-		if !ok {
-			return true
+	vx := w.expander(vt)
+	eachTagBranch(w, vx, vt.Body, func(node ast.Node, tag string, arms []tagArm) {
+		if !strings.HasSuffix(tag, ".GetTokenType()") {
+			return
 		}
-		for _, cx := range cc.List {
-			if sel, ok := unparen(cx).(*ast.SelectorExpr); ok && strings.HasSuffix(sel.Sel.Name, "LexerTEXT") {
-				for _, st := range cc.Body {
-					if es, ok := st.(*ast.ExprStmt); ok {
-						if call, ok := es.X.(*ast.CallExpr); ok && len(call.Args) == 1 {
-							if fld := lastField(tinfo, call.Fun); fld != nil && fld.Name() == "textCallback" && strings.HasSuffix(exprStr(call.Args[0]), ".GetText()") {
-								okText = true
+		for _, a := range arms {
+			for _, cx := range a.vals {
+				if sel, ok := unparen(cx).(*ast.SelectorExpr); ok && strings.HasSuffix(sel.Sel.Name, "LexerTEXT") {
+					for _, st := range a.body {
+						if es, ok := st.(*ast.ExprStmt); ok {
+							if call, ok := es.X.(*ast.CallExpr); ok && len(call.Args) == 1 {
+								// the argument: the text of the terminal's own symbol
+								if fld := lastField(tinfo, call.Fun); fld != nil && fld.Name() == "textCallback" && strings.HasSuffix(vx.str(call.Args[0]), ".GetSymbol().GetText()") {
+									okText = true
+								}
 							}
 						}
 					}
 				}
 			}
 		}
-		return true
 	})
 	c.ob("C04.R3", vt.Name+"/text-forwarded", w.Pos(vt.Decl.Pos()), okText, map[bool]string{true: "every TEXT terminal's text is handed to the text callback unconditionally", false: "TEXT terminals are not forwarded unconditionally to the text callback: text would be lost"}[okText])
 	// the text callback: two exits — extend last literal element or append a new one
